@@ -24,7 +24,7 @@ def one(sid):
                 why[pid] = [l.strip().split(" at src/")[0][:160] for l in r.stdout.splitlines() if l.strip().startswith("rule=")][:2]
             elif r.returncode == 2:
                 errs.append(pid)
-        return sid, {"target": (sid[3:6] if sid.startswith("r2-") else sid[:3]), "reported_by": fired, "analysis_error": errs, "rules": why}
+        return sid, {"target": __import__("re").search(r"C\d\d", sid).group(0), "reported_by": fired, "analysis_error": errs, "rules": why}
     finally:
         shutil.rmtree(tmp, ignore_errors=True)
 
